@@ -288,6 +288,13 @@ def handle (vh vu : Variant) (j : Json) : IO Unit := do
     let open' := jnat (jget impl "not_closed_trials")
     emit case true (stuck == 0 && open' == 0) s!"{b}.race-reopen" (if stuck == 0 && open' == 0 then "" else s!"{b}-stuck-after-reopen-race")
       (if stuck == 0 && open' == 0 then "" else s!"{b} breaker: in {stuck} of {jnat (jget impl "trials")} trials no probe was admitted after the timeout had elapsed again, in {open'} the breaker was not closed after the successful probes (failure reports had raced with permission requests in half-open)")
+  | "race-verdicts" =>
+    -- one failure short of opening, a failure report and a success report at the same moment; then the endpoint works
+    let impl := jget j "impl"
+    let stuck := jnat (jget impl "stuck_trials")
+    let open' := jnat (jget impl "not_closed_trials")
+    emit case true (stuck == 0 && open' == 0) s!"{b}.race-verdicts" (if stuck == 0 && open' == 0 then "" else s!"{b}-stuck-after-concurrent-verdicts")
+      (if stuck == 0 && open' == 0 then "" else s!"{b} breaker (threshold {jnat (jget impl "threshold")}): {jnat (jget impl "trials")} trials of a failure report and a success report arriving together one failure short of opening ({jnat (jget impl "opened_trials")} ended open); afterwards, with the endpoint working and the timeout elapsed, in {stuck} trials no probe was admitted and in {open'} the breaker was not closed by the successful probes")
   | _ => emit case false true "unknown-kind" "" s!"unknown kind {kind}"
 
 /-- The variant the implementation is compared with is `activeHealth` / `activeUnifier` of the model;
